@@ -24,6 +24,7 @@ META = {
     "assumptions": [],
 }
 META["explanation"] += " R17.3's drop clause requires the increment on every path from the Borrowed edge (no early return, e.g. while panicking)."
+META["explanation"] += ' R17.5 no assert / overflow-check terminator introduced in a public mutator of ObservableVector / the transaction beyond the index checks the documentation promises (explicit panics with a message are the documented bounds checks).'
 
 FAMILIES = [
     ("vector", "vector::ObservableVector<", "vector::entry::ObservableVectorEntry<", "vector::entry::ObservableVectorEntries<"),
